@@ -165,6 +165,30 @@ fn main() {
             Ok(Res::Ok(o)) => if o != tagv { ctx.violation("prerelease_tag_not_reproduced", a2[1..].join(" "), json!({"kind":"feedback","args":a2}), format!("clean checkout at tag {tagv} printed {o}")); },
             other => ctx.violation("prerelease_tag_rejected", a2[1..].join(" "), json!({"kind":"feedback","args":a2}), format!("{other:?}")),
         }
+        // (v) non-initial states: the pre-release version flow produced becomes the base tag; commits added after it on
+        // the same branch (same rules and flags, commit post-mode) must give strictly greater versions, step by step
+        if c.post.is_none() && prints_post(c.preset) {
+            let mut prev = tagv.clone();
+            for d in 1..=3u64 {
+                let mut a3 = a(&["flow", "--source", "none", "--tag-version", &tagv, "--distance", &d.to_string(), "--post-mode", "commit", "--schema", c.preset, "--output-format", c.fmt, "--bumped-commit-hash", "g1a2b3c4d5e"]);
+                if c.fmt == "pep440" { a3.extend(a(&["--input-format", "pep440"])); }
+                if let Some(b) = BRANCHES[c.branch] { a3.extend(a(&["--bumped-branch", b])); }
+                if c.rules != 0 { a3.extend(a(&["--branch-rules", &flow::rules_ron(&sets[c.rules].1)])); }
+                if let Some(h) = c.hash_len { a3.extend(a(&["--hash-branch-len", &h.to_string()])); }
+                if let Some(l) = c.label { a3.extend(a(&["--pre-release-label", l])); }
+                st.inc("prerelease_tag_chain_steps");
+                match zv::run_cli(&a3, None) {
+                    Ok(Res::Ok(o)) => {
+                        if cmp_versions(c.fmt, &o, &prev) != Some(Ordering::Greater) { ctx.violation("commit_after_prerelease_tag_not_increasing", a3[1..].join(" "), json!({"kind":"feedback-chain","args":a3}), format!("{prev} then {o} (base tag {tagv}, {d} commit(s) after it)")); }
+                        let (_, xyz) = TAGS[c.tag];
+                        if cmp_to(c.fmt, &o, [xyz[0], xyz[1], xyz[2] + 1]) != Some(Ordering::Less) { ctx.violation("not_below_next_patch", a3[1..].join(" "), json!({"kind":"feedback-chain","args":a3}), format!("{o} (from pre-release tag {tagv}) is not below the next patch release")); }
+                        prev = o;
+                    }
+                    Ok(_) if c.hash_len == Some(10) => { st.inc("hash10_rejected"); break; }
+                    other => { ctx.violation("prerelease_tag_rejected", a3[1..].join(" "), json!({"kind":"feedback-chain","args":a3}), format!("{other:?}")); break; }
+                }
+            }
+        }
         st
     }).reduce(Stats::default, Stats::merge);
 
@@ -183,11 +207,11 @@ fn main() {
     let all = s1.merge(s2).merge(s3).merge(s4.clone()).merge(s_git);
     let mut cov = Coverage::default();
     cov.states = cases.len() as u64 + chain_jobs.len() as u64 * 7 + all.get("tag_feedback_cases") + all.get("git_states");
-    cov.transitions = all.get("runs") + all.get("tag_feedback_cases") + all.get("chain_steps");
+    cov.transitions = all.get("runs") + all.get("tag_feedback_cases") + all.get("chain_steps") + all.get("prerelease_tag_chain_steps");
     cov.evaluations = all.get("runs") + all.get("tag_feedback_cases");
     cov.traces_validated = cov.evaluations;
     cov.distinct_nontrivial = all.get("active_cases");
-    cov.rule = format!("(i) full product final-release tags {:?} x {} branches x distance x dirty flag x post-mode x {} rule sets x hash lengths x --pre-release-label x --post x 11 standard presets x 2 formats through run_flow_pipeline, each output compared by independent comparators (R-SV precedence / standard PEP 440 order) with X.Y.Z and X.Y.(Z+1); (ii) distance chains 0..6 in commit mode for every (tag, branch, rule set, preset, format): strictly increasing where the preset prints post; (iii) every dev-less pre-release output fed back as --tag-version --clean must be reproduced. (iv) real git: every placement of <= 2 final-release tags on the commits of every explored DAG shape (C02's shape BFS) x HEAD at every branch tip x work-tree states, `zerv flow -C` in both formats bounded by the model's nearest tag, plus a commit step on the checked-out branch that must increase the version. non-trivial = active (dirty or ahead) runs", TAGS.iter().map(|t| t.0).collect::<Vec<_>>(), BRANCHES.len(), sets.len());
+    cov.rule = format!("(i) full product final-release tags {:?} x {} branches x distance x dirty flag x post-mode x {} rule sets x hash lengths x --pre-release-label x --post x 11 standard presets x 2 formats through run_flow_pipeline, each output compared by independent comparators (R-SV precedence / standard PEP 440 order) with X.Y.Z and X.Y.(Z+1); (ii) distance chains 0..6 in commit mode for every (tag, branch, rule set, preset, format): strictly increasing where the preset prints post; (iii) every dev-less pre-release output fed back as --tag-version --clean must be reproduced, and (v) used as base tag, 1..3 further commits on the same branch in commit post-mode must give strictly increasing versions above it and below X.Y.(Z+1). (iv) real git: every placement of <= 2 final-release tags on the commits of every explored DAG shape (C02's shape BFS) x HEAD at every branch tip x work-tree states, `zerv flow -C` in both formats bounded by the model's nearest tag, plus a commit step on the checked-out branch that must increase the version. non-trivial = active (dirty or ahead) runs", TAGS.iter().map(|t| t.0).collect::<Vec<_>>(), BRANCHES.len(), sets.len());
     cov.exhaustive = true;
     cov.samples = vec![json!(argv(&cases[cases.len() / 3], &sets)), json!(argv(&cases[cases.len() - 5], &sets))];
     cov.set("clause_counts", all.to_json());
